@@ -429,6 +429,44 @@ func detProcessLocalWrites(r *Run, sc *Scopes, onlyPkgs ...string) {
 			}
 		}
 	}
+	// a Haqq struct type that a package-level variable holds (directly or through a pointer) lives as long as the
+	// process too: a cache object behind `var cache = newCache()` is written through its pointer receiver
+	held := heldByProcessLocal()
+	for _, pk := range P.Pkgs {
+		if pk.Types == nil {
+			continue
+		}
+		sc2 := pk.Types.Scope()
+		for _, nm := range sc2.Names() {
+			v, ok := sc2.Lookup(nm).(*types.Var)
+			if !ok {
+				continue
+			}
+			t := deref(v.Type())
+			if nt, ok := t.(*types.Named); ok && nt.Obj().Pkg() != nil && isHaqqPath(nt.Obj().Pkg().Path()) {
+				if _, isStruct := nt.Underlying().(*types.Struct); isStruct {
+					// values of message/param types kept in variables (defaults) are not containers: require a map,
+					// slice, pointer, sync or atomic field
+					st := nt.Underlying().(*types.Struct)
+					container := false
+					for i := 0; i < st.NumFields(); i++ {
+						switch ft := st.Field(i).Type().Underlying().(type) {
+						case *types.Map, *types.Slice, *types.Chan:
+							container = true
+						case *types.Struct:
+							if p := namedPkgPath(st.Field(i).Type()); p == "sync" || p == "sync/atomic" {
+								container = true
+							}
+							_ = ft
+						}
+					}
+					if container && !isGeneratedFile(P.FileOf(v.Pos())) {
+						held[nt.Obj().Pkg().Path()+"."+nt.Obj().Name()] = true
+					}
+				}
+			}
+		}
+	}
 	n, bad := 0, 0
 	for _, fn := range sc.S.HaqqFuncs() {
 		if isTestSupport(P, fn) || isGeneratedFile(P.FileOf(fnPos(fn))) || !inOnly(fn) {
